@@ -18,7 +18,7 @@ inductive Tr : Sh → Th → Sh → Th → Prop
   | wake {s : Sh} : 0 < s.wake → Tr s .parked { s with wake := s.wake - 1, parked := s.parked - 1 } .idle
   | hkGo {s : Sh} {e : Elem} : e.tag ∈ s.released → Tr s (.hk e) s (.sel e)
   | selSdCancel {s : Sh} {e : Elem} : s.ctxDone = true → s.flags.cancel = true →
-      Tr s (.sel e) { s with wg := s.wg - 1, log := .dropSD e.serial :: s.log } .exited
+      Tr s (.sel e) { s with wg := s.wg - 1, closed := e.serial :: s.closed, log := .dropSD e.serial :: s.log } .exited
   | selSdIgnore {s : Sh} {e : Elem} : s.ctxDone = true → s.flags.cancel = false → s.flags.ignore = true →
       Tr s (.sel e) s (.chk e)
   | selSd {s : Sh} {e : Elem} : s.ctxDone = true → s.flags.cancel = false → s.flags.ignore = false →
